@@ -1299,6 +1299,7 @@ def main(tier: str, seed: int, args) -> int:
         "sweep_units": c.get("sweep_units", 0),
         "sweep_units_truncated_by_budget": c.get("sweep_units_truncated_by_budget", 0),
         "sweep_single_fault_runs": c.get("sweep_single_runs", 0),
+        "followup_calls_by_the_same_process_after_a_failed_call": c.get("followup_calls", 0),
         "sweep_pair_runs": c.get("sweep_pair_runs", 0),
         "random_multi_fault_runs": runs - c.get("sweep_single_runs", 0) - c.get("sweep_pair_runs", 0) - c.get("sweep_scenarios", 0),
         "runs_with_fault": c.get("runs_with_fault", 0),
